@@ -15,6 +15,7 @@ from typing import Any, Dict, List
 
 from vf import pyvc
 from vf.core import Ob, PROVED, REFUTED, UNDECIDED, scenario, simple_ob, sym_run
+from vf import instrument
 from vf.instrument import repo_root
 from vf.jasmrt import J, ensure
 from vf.pyvc import Name, SymSeq, ctx
@@ -127,7 +128,7 @@ def keys_read():
     written, read = set(), set()
     where: Dict[str, List[str]] = {}
     for f in _src_files():
-        tree = ast.parse(open(f).read(), f)
+        tree = instrument.parse_file(f)
         for n in ast.walk(tree):
             if isinstance(n, ast.Call) and isinstance(n.func, ast.Attribute) and n.func.attr in ("_set_info", "get_info") and n.args:
                 k = ast.unparse(n.args[0])
@@ -142,7 +143,7 @@ def keys_read():
                     read.add(k)
     # allow_matching_substring(key) passes the enum through: its call sites name the keys
     for f in _src_files():
-        tree = ast.parse(open(f).read(), f)
+        tree = instrument.parse_file(f)
         for n in ast.walk(tree):
             if isinstance(n, ast.Call) and isinstance(n.func, ast.Attribute) and n.func.attr == "allow_matching_substring" and n.args:
                 read.add(ast.unparse(n.args[0]))
@@ -161,11 +162,11 @@ ALLOWED_GLOBAL_STATE = {
 MUT = {"append", "extend", "update", "add", "setdefault", "pop", "clear", "insert", "remove", "discard", "popitem", "sort", "reverse"}
 
 
-@scenario("config:frame-scan", "src/jasm (all modules)", ["C14"], doc="process-global mutable state written by the code (static scan)")
+@scenario("config:frame-scan", "src/jasm (all modules)", ["C14", "C13"], doc="process-global mutable state written by the code (static scan)")
 def frame_scan():
     found = []
     mutated = set()
-    trees = {f: ast.parse(open(f).read(), f) for f in _src_files()}
+    trees = {f: instrument.parse_file(f) for f in _src_files()}
     for f, tree in trees.items():
         for n in ast.walk(tree):
             if isinstance(n, ast.Call) and isinstance(n.func, ast.Attribute) and n.func.attr in MUT:
@@ -217,15 +218,16 @@ def frame_scan():
     extra = sorted(set(x for x in found if x not in ALLOWED_GLOBAL_STATE))
     ob = simple_ob("FRAME:global-state", "src/jasm (all modules)", "FRAME",
                    "the only process-global state written by JASM is the JASMConfig singleton (reloaded by every compilation) and the logger",
-                   True if not extra else None, P14, detail=f"further global / class-level / cached state: {extra} -- its independence of earlier runs is not proved")
+                   True if not extra else None, ["C14", "C13"], detail=f"further global / class-level / cached state: {extra} -- its independence of earlier runs is not proved")
     return [ob]
 
 
-@scenario("config:per-operation", "jasm.jasm_regex.yaml2regex.Yaml2Regex.__init__", ["C14"],
+@scenario("config:per-operation", "jasm.jasm_regex.yaml2regex.Yaml2Regex.__init__", ["C14", "C01", "C15", "C18", "C05"],
           inlined=["context_initializer", "_load_config", "MasterOfPuppets.__init__"], doc="config is loaded and capture table allocated per compilation")
 def per_operation():
     ensure()
     obs: List[Ob] = []
+    PCFG = ["C14", "C01", "C15", "C18"]     # the flags / sections / range in effect are those of THIS rule
     calls: List[Any] = []
     Y = J.y2r.Yaml2Regex
     orig_lf, orig_lc = Y.load_file, J.gd.JASMConfig.load_config
@@ -236,12 +238,12 @@ def per_operation():
         ok = calls == [("load_file", "rule.yaml"), ("load_config", {"style": "att"})]
         obs.append(simple_ob("Yaml2Regex.__init__:POST-order", "jasm.jasm_regex.yaml2regex.Yaml2Regex.__init__", "POST",
                              "the constructor reads the rule and loads ITS config into the singleton, once, before anything is compiled",
-                             ok, P14, detail=repr(calls), witness=repr(calls)))
+                             ok, PCFG, detail=repr(calls), witness=repr(calls)))
         calls.clear()
         Y.load_file = staticmethod(lambda file: {"pattern": ["x"]})
         Y("rule.yaml")
         obs.append(simple_ob("Yaml2Regex.__init__:POST-default", "jasm.jasm_regex.yaml2regex.Yaml2Regex.__init__", "POST",
-                             "a rule without `config` loads the empty config (all keys reset)", calls == [("load_config", {})], P14,
+                             "a rule without `config` loads the empty config (all keys reset)", calls == [("load_config", {})], PCFG,
                              detail=repr(calls), witness=repr(calls)))
         a, b = y.context_initializer(), y.context_initializer()
         okc = a is not b and a.capture_manager is not b.capture_manager and a.capture_manager.capture_group_references == [] \
@@ -264,15 +266,20 @@ P15 = ["C15"]
 def flags():
     ensure()
     obs: List[Ob] = []
+    CONC = [".text", "hotcode", "UPX0", "__libc_freeres_fn", ".init.text", "CODE"]     # section names need not begin with a dot
     for sid, mk in (("none", lambda: None), ("empty", lambda: []), ("two", lambda: [Name("s1"), Name("s2")]),
-                    ("seq", lambda: SymSeq("sections", Name("sec_k"), 1))):
+                    ("seq", lambda: SymSeq("sections", Name("sec_k"), 1)), ("concrete", lambda: list(CONC))):
         def fn():
             cfg = J.gd.JASMConfig.get_instance()
             cfg.load_config({} if mk() is None else {"sections": mk()})
             d1 = J.gnud.GNUObjdumpDisassembler(enum_disas_style=J.gd.DisassStyle.att)
             d2 = J.gnud.GNUObjdumpDisassembler(enum_disas_style=J.gd.DisassStyle.att)
             return [d1.program, d1.flags, d2.flags]
-        run = sym_run(fn)
+        try:
+            run = sym_run(fn)
+        except Exception as e:   # noqa
+            obs.append(simple_ob(f"GNUObjdumpDisassembler:{sid}:RUN", GD, "RUN", "symbolic execution completes", None, P15, detail=f"unsupported: {e}"))
+            continue
         for i, p in enumerate(run.paths):
             base = f"GNUObjdumpDisassembler:{sid}:p{i}"
             if p.kind != "ret":
@@ -285,6 +292,8 @@ def flags():
                 okt = tail == []
             elif sid == "two":
                 okt = [getattr(x, "ident", x) for x in tail] == ["-j", "s1", "-j", "s2"]
+            elif sid == "concrete":
+                okt = tail == [x for s_ in CONC for x in ("-j", s_)]
             else:
                 okt = (len(tail) == 1 and isinstance(tail[0], Splice) and getattr(tail[0].seq, "flatten", False)
                        and isinstance(tail[0].seq.elem, list) and len(tail[0].seq.elem) == 2 and tail[0].seq.elem[0] == "-j"
